@@ -25,6 +25,8 @@ pub enum Op {
     RestartSigint,
     /// arm a kill at the k-th mutating disk call from now; the following operations run until it fires
     ArmCrash { k: u32, after: bool },
+    /// two administrators create two databases at the same instant (the handlers interleave at lock granularity)
+    CreateTwoAtOnce { a: usize, b: usize },
 }
 
 #[derive(Clone, Debug, Serialize, Deserialize)]
@@ -42,7 +44,15 @@ fn gen(rng: &mut Rng) -> Program {
     ops.push(Op::CreateDb { db: 0 });
     for _ in 0..n {
         ops.push(match rng.below(14) {
-            0 | 1 => Op::CreateDb { db: rng.below(ndb as u64) as usize },
+            0 => Op::CreateDb { db: rng.below(ndb as u64) as usize },
+            1 => {
+                if ndb >= 2 && rng.chance(1, 2) {
+                    let a = rng.below(ndb as u64) as usize;
+                    Op::CreateTwoAtOnce { a, b: (a + 1 + rng.below(ndb as u64 - 1) as usize) % ndb }
+                } else {
+                    Op::CreateDb { db: rng.below(ndb as u64) as usize }
+                }
+            }
             2..=5 => Op::Write { db: rng.below(ndb as u64) as usize, key: rng.below(5) as usize },
             6 => Op::Remove { db: rng.below(ndb as u64) as usize, key: rng.below(5) as usize },
             7 | 8 => Op::Snapshot { mask: rng.range(1, (1 << ndb) - 1) as u8, reclaim: rng.chance(1, 4) },
@@ -233,6 +243,22 @@ fn execute(prog: Program) -> Outcome {
         match op {
             Op::CreateDb { db } => {
                 admin.exec(&format!("create-db {} tok none", DBN[*db]));
+            }
+            Op::CreateTwoAtOnce { a, b } => {
+                let mut hs = Vec::new();
+                for (t, d) in [(0, *a), (1, *b)] {
+                    let dd = dbs.clone();
+                    hs.push(spawn_on_node(&w, 0, &format!("creator{}", t), move || {
+                        let mut s = Session::admin(&dd);
+                        s.exec(&format!("create-db {} tok none", DBN[d]));
+                        s.disconnect();
+                    }));
+                }
+                for h in hs {
+                    let _ = h.join();
+                }
+                nundb_verif_rt::kernel::with(|k| k.fault("concurrent_create_db"));
+                check_unique_ids(&dbs, "concurrent-create", &mut out.violations);
             }
             Op::Write { db, key } => {
                 if cur != Some(*db) {
